@@ -169,6 +169,10 @@ def evaluate(ctx, cases):
         check_case(ctx, c, steps, lib_db.model_steps(ans))
 
 
+def _shrinker():
+    return c06.make_shrinker("C07", _run_one, check_case, "c07")
+
+
 def run(ctx):
     cases = c06.corpus_cases("C07")
     ctx.hist("corpus", len(cases))
@@ -180,6 +184,7 @@ def run(ctx):
         k = min(60, n - done)
         evaluate(ctx, [gen_case(ctx.rng) for _ in range(k)])
         done += k
+    _shrinker()[2](ctx)
     if ctx.evaluations > 20 and ctx.distinct_nontrivial < ctx.evaluations * 0.3:
         raise common.InfraError("degenerate distribution: %d non-trivial of %d" % (ctx.distinct_nontrivial, ctx.evaluations))
     crashed = ctx.histogram.get("cmd=declare/Crashed", 0) + ctx.histogram.get("cmd=undeclare/Crashed", 0)
